@@ -20,11 +20,18 @@ func HashName(label string, ha uint8, iter uint16, salt string) string {
 	wireSalt = wireSalt[:n]
 
 	name := make([]byte, 255)
-	off, err := PackDomainName(strings.ToLower(label), name, 0, nil, false)
+	off, err := PackDomainName(label, name, 0, nil, false)
 	if err != nil {
 		return ""
 	}
 	name = name[:off]
+	// The canonical form lower-cases the letters of the wire octets, however
+	// they were written; a length octet is at most 63 and so not a letter.
+	for i, c := range name {
+		if c >= 'A' && c <= 'Z' {
+			name[i] = c + ('a' - 'A')
+		}
+	}
 
 	s := sha1.New()
 	// k = 0
